@@ -60,3 +60,32 @@ def run(repo, res, rid, only=None, floor=15):
 VARIANTS = [
     dict(name="date-drops-set-metadata", mod="core", expect="fire", old="        set_metadata=set_metadata,\n        record_provenance=record_provenance,\n        **kwargs,\n    )", new="        record_provenance=record_provenance,\n        **kwargs,\n    )"),
 ]
+
+
+def falsy_defaults(repo, res, rid, floor=15):
+    """`x = x or DEFAULT` (or `self.x = x or DEFAULT`) on a public parameter replaces every falsy
+    value -- 0, 0.0, False, '' -- by the default, not just None: an explicitly given 0 is then neither
+    used nor rejected.  None-defaults must be replaced through `is None`."""
+    n = 0
+    for mod, q in ENTRY_POINTS:
+        if not repo.has_fn(mod, q):
+            continue
+        f = repo.fn(mod, q)
+        n += 1
+        params = set(all_params(f))
+        found = False
+        for x in own_nodes(f):
+            if isinstance(x, ast.BoolOp) and isinstance(x.op, ast.Or) and isinstance(x.values[0], ast.Name) and x.values[0].id in params and len(x.values) == 2:
+                par = repo.mods[mod].parent.get(x)
+                if isinstance(par, (ast.Assign, ast.keyword, ast.Call, ast.Return)):
+                    found = True
+                    res.bad(rid, f"{mod}.{q} `{U(x)}` default for `{x.values[0].id}`", f"`{U(x)}` replaces every falsy value of `{x.values[0].id}` (0, 0.0, False) by the default: an explicit 0 is silently ignored instead of being used or rejected with ValueError; test `is None`", repo.loc(f, x))
+        if not found:
+            res.ok(rid, f"{mod}.{q} replaces None defaults through `is None`", "no `param or default` expression", repo.loc(f))
+    if n < floor:
+        raise AnalysisError(f"{rid}: only {n} entry points found (expected >= {floor})")
+
+
+VARIANTS_FALSY = [
+    dict(name="max-iterations-falsy-default", mod="core", expect="fire", old="    if max_iterations is None:\n        max_iterations = DEFAULT_MAX_ITERATIONS\n", new="    max_iterations = max_iterations or DEFAULT_MAX_ITERATIONS\n"),
+]
